@@ -726,6 +726,13 @@ func corpus() []Case {
 	c.ChunkSize = 4096
 	c.Ops = []Op{{Op: "readpart"}, {Op: "bg"}, {Op: "off"}, {Op: "readall"}}
 	out = append(out, c)
+	// ... visibly to the user only when the file is so large that reading one chunk does not pull the rest of its compressed
+	// bytes into the blob cache (estargz reads ahead up to 2 MiB): 5 chunks of 1 MiB, the second one read before
+	c = base()
+	c.Files = []FileSpec{{Name: "a", Kind: "reg", Size: 5 << 20}, {Name: "b", Kind: "reg", Size: 100}}
+	c.Prio, c.ChunkSize, c.BlobCS, c.PrefetchSize = []string{"b"}, 1<<20, 1<<19, 1000
+	c.Ops = []Op{{Op: "readpart"}, {Op: "bg"}, {Op: "off"}, {Op: "readall", Buf: 1 << 20}}
+	out = append(out, c)
 	c = base()
 	c.ChunkSize, c.FSCache, c.LRU, c.SyncAdd = 4096, "dir", 2, true
 	c.Ops = []Op{{Op: "readpart"}, {Op: "pf"}, {Op: "off"}, {Op: "readprio"}, {Op: "on"}, {Op: "bg", N: 2}, {Op: "off"}, {Op: "readall", Buf: 777}}
